@@ -1,5 +1,6 @@
 """C09 -- opaque tags stay opaque.
-Proof : coq/C09 (replace_tags / replace_uniq model, round trip, body verbatim, marker inert/atomic).
+Proof : coq/C09 (replace_tags / replace_uniq model, round trip, body verbatim, marker inert; marker atomic in the
+        scanner model of coq/C10; entity decoding of nowiki/pre bodies over the resolve_entity model of coq/C01).
 Tie   : extracted model vs Uniquifier.replace_tags/replace_uniq on generated texts.
 Search: bodies over the markup alphabet x tags x contexts through parse_string, tree oracle."""
 import json
@@ -13,7 +14,7 @@ from vt.harness import c09_pages as pages
 
 LEVEL = "proof"
 PH = pages.PH
-PROOF_DIRS = []
+PROOF_DIRS = ["C01", "C10"]      # coq/C09/Scanner*.v use the scanner model of C10, EntModel.v the resolve_entity model of C01
 OPAQUE = ["nowiki", "pre", "math", "source", "syntaxhighlight", "timeline"]
 
 # --------------------------------------------------------------------------- search: generation
@@ -43,6 +44,14 @@ FRAGS = [
     # plain
     "x", "word", "1", "a b", "é", " ", "\U0001F600", "UNIQ", "QINU",
 ]
+# strings that look like numeric character references but are NOT (CPython's int() accepts sign, blanks, underscores,
+# a 0x prefix, non-ASCII digits): util.replace_html_entities decodes them inside nowiki/pre on the unchanged /repo
+# (defect reported with fixes/C09-entity-lenient-int.diff).  Part of the alphabet once that fix is committed:
+# set ENTITY_FRAGS_ENABLED = True (VERIF_C09_ENTITY_FRAGS=1 enables them for one run).
+ENTITY_FRAGS = ["&#+65;", "&# 65;", "&#6_5;", "&#x0x41;", "&#x 41;", "&#-0;", "&#\n65;", "&#\u0666\u0665;", "AT&T &lt;"]
+ENTITY_FRAGS_ENABLED = True
+if ENTITY_FRAGS_ENABLED or os.environ.get("VERIF_C09_ENTITY_FRAGS") == "1":
+    FRAGS = FRAGS + ENTITY_FRAGS
 FRAG_CLASS = {}
 for _f in FRAGS:
     if "include" in _f:
@@ -539,7 +548,9 @@ def run_tie(run, cases, exe, src):
 # --------------------------------------------------------------------------- the check
 
 def generate(src):
-    from vt.gen import c09_tables
+    from vt.gen import c01_resolve, c09_tables, c10_rules
+    c10_rules.generate(src)        # C10/Gen_rules.v  (rule table of _uscan.re: used by C09/Scanner*.v)
+    c01_resolve.generate(src)      # C01/Gen_resolve.v (except clause + surrogate guard of resolve_entity: used by C09/EntModel.v)
     return c09_tables.generate(src)
 
 
@@ -585,10 +596,18 @@ def check(run):
                    "on every run (vt/gen/c09_tables.py, fail-closed)",
                    "CPython re: backtracking semantics of the transcribed pattern (leftmost, alternatives in order); its \\s, \\d, IGNORECASE and "
                    "lower tables are tabulated from the running interpreter into Gen_tables.v, not assumed",
-                   "the tree oracle (vt/harness/c09_tree.py): node serialisation and placeholder alignment"]
-    run.assumptions = ["C09_marker_atomic is about the t_uniq rule alone (longest-match against the rest of _uscan.re is C10's model; labelled _partial)",
+                   "the tree oracle (vt/harness/c09_tree.py): node serialisation and placeholder alignment",
+                   "coq/C10 scanner model + vt/gen/c10_rules.py (rule table regenerated here too) and coq/C01 resolve_entity model + vt/gen/c01_resolve.py, "
+                   "imported by coq/C09/Scanner*.v and EntModel.v; the shape of util.replace_html_entities / create_nowiki / create_pre is pinned by "
+                   "vt/gen/c09_tables.py (fail-closed), the entity model itself is not run differentially (the tree oracle's own decoder is independent of it)"]
+    run.assumptions = ["C09_marker_atomic (scan level) needs the context pre_ok u: in front of the marker only earlier complete markers and stretches "
+                       "without NUL/0x7f in which every '<' is closed by a later '>' (i.e. the marker is not inside an html tag or comment token); "
+                       "the scanner is C10's model (tied to _uscan.cc by C10's differential run)",
                        "tree-level opacity is established by search only, in the listed contexts",
-                       "round trip is stated for texts without 0x7f and without the four non-ASCII code points that re.IGNORECASE folds onto i, k, s"]
+                       "round trip is stated for texts without 0x7f and without the four non-ASCII code points that re.IGNORECASE folds onto i, k, s",
+                       "entity decoding: int() and html.entities are Section variables of coq/C01's resolve_entity (any int(), any table in range); "
+                       "'only VALID references change' needs pyint_strict, which CPython's int() does not satisfy on the lenient pattern '&[^;]*;' "
+                       "(C09_entity_lenient_int_refuted; fixes/C09-entity-lenient-int.diff); remove_nowiki_tags (pre) is not modelled"]
     src = core.snapshot()
     info = {}
 
